@@ -164,6 +164,25 @@ def gen_dir(rng, npages=(2, 5), with_zid=True, sections=True, date_prob=0.0, far
     return files
 
 
+def add_exotic_chars(rng, files, p=0.25):
+    """characters that Python's str.splitlines() treats as line ends but the grammar does not (NL is \\r?\\n): U+2028 inside a
+    note, a form feed alone on a line between blocks.  The lexer drops them silently, the page stays error-free, and line
+    numbers keep counting `\\n` only."""
+    out = {}
+    for rel, text in files.items():
+        lines = text.split("\n")
+        if rng.random() < p and len(lines) > 3:
+            cand = [i for i, l in enumerate(lines) if i > 1 and l[:2] in ("- ", "o ", "x ", "~ ", "< ", "> ")]
+            if cand:
+                i = rng.choice(cand[: max(1, len(cand) // 2)])   # early in the page: everything below is shifted for splitlines()
+                lines[i] = lines[i] + " pasted\u2028text"
+            blanks = [i for i, l in enumerate(lines) if i > 1 and l == ""]
+            if blanks and rng.random() < 0.5:
+                lines[rng.choice(blanks)] = "\x0c"
+        out[rel] = "\n".join(lines)
+    return out
+
+
 def write_dir(zdir: Path, files: dict[str, str]):
     for rel, txt in files.items():
         p = zdir / rel
